@@ -11,6 +11,7 @@ from ..rulekit import *
 from ..norm import Normalizer, NormError
 from ..exc import EscapeAnalysis
 from ._kit_c06 import SymExec, ShapedEscapes, txt, parse as P, callable_body, _walk_values, apply_callable, filtered_iter, handler_types, inline_walrus
+from ._kit_c06 import CollView, kind_of_container, views_at_result, container_views_at_result, function_of_fields
 
 R = Rules(
     "C06",
@@ -19,7 +20,9 @@ R = Rules(
         "resolved closure is a subset of {ContinueException (2.31), IncompleteException (4.08), error.BadRequest (4.00)} -- "
         "anything else becomes 5.00; (b) the Continue response echoes the request's own Block1 option; (c) the transfer key "
         "is (remote.blockwise_key, code, cache key without Block1/Block2/Observe), the cache key holds (number, value) of "
-        "every option except the ignored and the safe-to-forward NoCacheKey ones (none of the others is left out), the UDP "
+        "every option INSTANCE except the ignored and the safe-to-forward NoCacheKey ones (none of the others is left out; "
+        "a repeated option contributes one element per instance, in order: no set, no dictionary keyed by the option number, "
+        "no re-sorting on the way into the result), the UDP "
         "endpoint's blockwise_key holds the complete socket address; (d) on every path of "
         "_append_request_block the assembly is extended exactly when `block1.start == len(payload)` (otherwise it raises "
         "and leaves the assembly untouched) and a non-final block of the wrong size raises BadRequest; (e) feed_and_take "
@@ -534,61 +537,123 @@ def c(ctx):
         bad = [f for f in facts_false if not sg.entails(f, allowed)]
         ag.add("an option is left out of the key only if it is listed in ignore_options or is a safe-to-forward NoCacheKey option", not bad, node, construct="get_cache_key %s: completeness" % what, detail="left out %s" % (_where(sg, bad[0]) if bad else ""))
 
+    def instances(o, view, node, what):
+        # The transfer key separates requests by their "set of cache-key options", and an option may be repeated
+        # (Uri-Path, Uri-Query, Location-*, ETag, If-Match ...): `/a/b` and `/b/a`, `?dev=1&slot=x` and `?dev=2&slot=x`
+        # are different requests.  The key therefore needs one element per option INSTANCE, in the order of the option
+        # list -- which is what a list / tuple / generator gives, and what a set (equal elements merged, order gone), a
+        # dictionary keyed by something that two instances can share (only one of them survives) or a plain sorted() does
+        # not.  `view` is how the collection arrives in the result after all conversions (see _kit_c06.CollView).
+        ctx.need(view.opaque is None, "get_cache_key: the options are converted by %s, which is outside the rule's vocabulary" % view.opaque)
+        for K in view.collapse:
+            # merged by equality of K: a loss exactly when two instances can agree in K -- certain when K is computed from
+            # the option's number / value alone; a K that tells instances apart (a counter, id(), the option object
+            # itself) is not interpreted
+            ctx.need(function_of_fields(K, o.id, ("number", "value")), "get_cache_key: options are merged by %s, which is not a function of the option's number and value" % txt(K))
+        lost = "merged by equal %s" % ", ".join(txt(K) for K in view.collapse) if view.collapse else ("order lost" if not view.ordered else "")
+        ag.add("every instance of a repeated option enters the key, in the order of the option list", not view.collapse and view.ordered, node, construct="get_cache_key %s: instances" % what, detail=lost)
+
+    def emit(o, view0, where, facts_true, node, what):
+        """one contribution `view0` per option `o` to the local collection `where` (a name) / made by the expression
+        `where` = (node, name of the tree it occurs in): judged as it arrives in the result"""
+        finals = container_views_at_result(p, view0, where) if isinstance(where, str) else views_at_result(p, view0, where[0], where[1])
+        for fv in finals:
+            member(o, fv.elt, facts_true, node, what)
+            instances(o, fv, node, what)
+        return finals
+
     def opt_iter(it):
         return isinstance(it, ast.Call) and chain(it.func) == "self.opt.option_list" and not it.args
+
+    def pairs_of(d):
+        """(key, value) expressions of a literal mapping argument: {k: v}, [(k, v)], ((k, v),)"""
+        if isinstance(d, ast.Dict) and all(k is not None for k in d.keys):
+            return list(zip(d.keys, d.values))
+        if isinstance(d, (ast.List, ast.Tuple)) and all(isinstance(x, ast.Tuple) and len(x.elts) == 2 for x in d.elts):
+            return [(x.elts[0], x.elts[1]) for x in d.elts]
+        return None
 
     for p in gpaths:
         if p.end == "raise":
             continue
         fors = [ev for ev in p.evs("for") if opt_iter(ev.value) and isinstance(ev.target, ast.Name)]
         sites_before = sites
-        # loop + append / += [x] / extend([x]) into a local list
-        def reaches_result(name):
-            return p.ret is not None and name in names_in(p.ret)
-
+        # a local collection filled in a loop over the options, in every spelling of "add one element": list.append /
+        # insert / extend([x]) / += [x], set.add / update({x}) / |= {x}, dict[k] = v / setdefault / update({k: v}) / |= {k: v}
         for ev, c_, r in sg.calls(p):
-            if not (isinstance(r.func, ast.Attribute) and isinstance(r.func.value, ast.Name) and r.func.value.id in p.objs and len(r.args) == 1 and fors and reaches_result(r.func.value.id)):
+            if not (isinstance(r.func, ast.Attribute) and isinstance(r.func.value, ast.Name) and r.func.value.id in p.objs and fors) or r.keywords:
                 continue
-            if r.func.attr in ("append", "add"):
-                member(fors[-1].target, r.args[0], [ev.facts], c_, "accumulation")
-            elif r.func.attr in ("extend", "update") and isinstance(r.args[0], (ast.List, ast.Tuple, ast.Set)):
-                for x in r.args[0].elts:
-                    member(fors[-1].target, x, [ev.facts], c_, "accumulation")
-        # `acc += [x]` / `acc = acc + [x]` inside the loop
+            name, a_ = r.func.value.id, r.func.attr
+            kind = kind_of_container(p.objs[name])
+            one = (lambda x: CollView.set_(x)) if (kind == "set" or (kind is None and a_ in ("add", "update"))) else (lambda x: CollView.seq(x))
+            got = []
+            if kind == "map":
+                if a_ in ("setdefault", "__setitem__") and len(r.args) == 2:
+                    got = [CollView.map_(r.args[0], r.args[1])]
+                elif a_ == "update" and len(r.args) == 1 and pairs_of(r.args[0]) is not None:
+                    got = [CollView.map_(k_, v_) for k_, v_ in pairs_of(r.args[0])]
+            elif a_ in ("append", "add", "appendleft") and len(r.args) == 1:
+                got = [one(r.args[0])]
+            elif a_ == "insert" and len(r.args) == 2:
+                got = [one(r.args[1])]
+            elif a_ in ("extend", "update", "extendleft") and len(r.args) == 1 and isinstance(r.args[0], (ast.List, ast.Tuple, ast.Set)):
+                got = [one(x) for x in r.args[0].elts]
+            for v0 in got:
+                emit(fors[-1].target, v0, name, [ev.facts], c_, "accumulation")
+        for ev in p.evs("setitem"):
+            if fors and isinstance(ev.target, ast.Name) and ev.target.id in p.objs and kind_of_container(p.objs[ev.target.id]) == "map" and p.events.index(ev) > p.events.index(fors[-1]):
+                emit(fors[-1].target, CollView.map_(ev.key, ev.value), ev.target.id, [ev.facts], ev.node, "accumulation")
+        # `acc += [x]` / `acc = acc + [x]` / `acc |= {k: v}` inside the loop
         for ev in p.evs("bind"):
             v = ev.value
-            if fors and isinstance(v, ast.BinOp) and isinstance(v.op, ast.Add) and isinstance(v.right, (ast.List, ast.Tuple)) and any(isinstance(n, ast.Name) and n.id in p.objs for n in ast.walk(v.left)) and p.events.index(ev) > p.events.index(fors[-1]) and reaches_result(ev.target):
-                for x in v.right.elts:
-                    member(fors[-1].target, x, [ev.facts], ev.node, "accumulation")
+            if not (fors and isinstance(v, ast.BinOp) and isinstance(v.op, (ast.Add, ast.BitOr)) and any(isinstance(n, ast.Name) and n.id in p.objs for n in ast.walk(v.left)) and p.events.index(ev) > p.events.index(fors[-1])):
+                continue
+            got = []
+            if isinstance(v.op, ast.Add) and isinstance(v.right, (ast.List, ast.Tuple)):
+                got = [CollView.seq(x) for x in v.right.elts]
+            elif isinstance(v.op, ast.BitOr) and isinstance(v.right, ast.Set):
+                got = [CollView.set_(x) for x in v.right.elts]
+            elif isinstance(v.op, ast.BitOr) and pairs_of(v.right) is not None and isinstance(v.right, ast.Dict):
+                got = [CollView.map_(k_, v_) for k_, v_ in pairs_of(v.right)]
+            for v0 in got:
+                emit(fors[-1].target, v0, ev.target, [ev.facts], ev.node, "accumulation")
         if fors and sites == sites_before:
             # an iteration that added nothing to the key
             skipped(fors[-1].target, [p.facts], fors[-1].node, "accumulation")
         # comprehension / generator over the option list, anywhere in what is returned (also behind a local list)
         if p.ret is None:
             continue
-        roots = [p.ret] + [v for k, v in p.objs.items() if k in names_in(p.ret)]
+        trees = [(None, p.ret)] + list(p.objs.items())
         imports = gk.module.imports
-        for root in roots:
+        for tname, root in trees:
             for n in ast.walk(root):
                 # an element per option of the (possibly filtered) option list: comprehension / generator, map(f, options)
-                tgt = elt = None
+                tgt = None
+                exprs = []
                 conds = []
-                if isinstance(n, (ast.ListComp, ast.GeneratorExp, ast.SetComp)) and len(n.generators) == 1 and isinstance(n.generators[0].target, ast.Name) and not n.generators[0].is_async:
+                if isinstance(n, (ast.ListComp, ast.GeneratorExp, ast.SetComp, ast.DictComp)) and len(n.generators) == 1 and isinstance(n.generators[0].target, ast.Name) and not n.generators[0].is_async:
                     g = n.generators[0]
                     r = filtered_iter(sg, p, g.iter, ast.Name(id=g.target.id, ctx=ast.Load()), imports)
                     if r is not None and opt_iter(r[0]):
-                        tgt, elt, conds = g.target, n.elt, list(r[1]) + list(g.ifs)
+                        tgt, conds = g.target, list(r[1]) + list(g.ifs)
+                        exprs = [n.key, n.value] if isinstance(n, ast.DictComp) else [n.elt]
                 elif isinstance(n, ast.Call) and chain(n.func) == "map" and len(n.args) == 2 and not n.keywords:
                     el = ast.Name(id="<option>", ctx=ast.Load())
                     r = filtered_iter(sg, p, n.args[1], el, imports)
                     if r is not None and opt_iter(r[0]):
+                        if not views_at_result(p, CollView.seq(el), n, tname):
+                            continue
                         elt = apply_callable(sg, p, n.args[0], [el], imports)
                         ctx.need(elt is not None, "get_cache_key: the function mapped over the options (%s) is outside the rule's vocabulary" % txt(n.args[0]))
-                        tgt, conds = el, list(r[1])
+                        tgt, conds, exprs = el, list(r[1]), [elt]
                 if tgt is None:
                     continue
-                if any(isinstance(x, ast.NamedExpr) for c_ in conds + [elt] for x in ast.walk(c_)):
-                    *conds, elt = inline_walrus(sg, conds + [elt])
+                if any(isinstance(x, ast.NamedExpr) for c_ in conds + exprs for x in ast.walk(c_)):
+                    flat = inline_walrus(sg, conds + exprs)
+                    conds, exprs = flat[: len(conds)], flat[len(conds):]
+                view0 = CollView.map_(exprs[0], exprs[1]) if isinstance(n, ast.DictComp) else (CollView.set_(exprs[0]) if isinstance(n, ast.SetComp) else CollView.seq(exprs[0]))
+                if not views_at_result(p, view0, n, tname):
+                    continue  # does not reach the result
                 cond = ast.BoolOp(op=ast.And(), values=conds) if len(conds) > 1 else (conds[0] if conds else ast.Constant(value=True))
                 cond = sg.subst(cond, p.env, p.chains)
                 sg._defs_now = p.defs
@@ -597,7 +662,7 @@ def c(ctx):
                 outs = [f for b_, f in decided if b_]
                 rnode = next(ev.node for ev in reversed(p.events) if ev.kind == "ret")
                 ctx.need(outs, "get_cache_key: the comprehension filter is never true")
-                member(tgt, elt, outs, rnode, "comprehension")
+                emit(tgt, view0, (n, tname), outs, rnode, "comprehension")
                 skipped(tgt, [f for b_, f in decided if not b_], rnode, "comprehension")
     ag.floor("cache key accumulation sites", sites, 1)
     ag.flush()
@@ -916,6 +981,7 @@ def f(ctx):
     xpaths = xs.paths(assume=[("%s == 7" % szx, False)])  # the BERT arm (SZX 7) belongs to C05
     es = set(EA.escapes(fi))
     ctx.extra["call_shape_flow_extract_or_insert"] = [list(x) for x in EA.flow_log]
+    ctx.extra["lemmas_extract_or_insert"] = sorted(set(EA.lemmas_used))
     # L3' (Message.__init__'s `payload is None` TypeError cannot be triggered by copy(payload=<bytes slice>)) is no longer
     # a named exemption: ShapedEscapes follows the value -- _extract_block passes a slice (not None), copy() takes it out
     # of **kwargs and hands it to the constructor, which stores it in self.payload and tests that -- and finds the raise
@@ -1445,3 +1511,8 @@ R.seed("C06.g", F_T, "            self._start_over()\n        else:\n           
 R.seed("C06.e", F_B, "        if req.opt.block1.block_number == 0:\n            # silently discarding any old incomplete operation\n            self._assemblies[block_key] = req\n        else:\n", "        if req.opt.block1.block_number == 0 and not req.opt.block1.more:\n            # silently discarding any old incomplete operation\n            self._assemblies[block_key] = req\n        elif req.opt.block1.block_number != 0:\n", "block 0 of a longer body is acknowledged with 2.31 but never stored")
 R.seed("C06.b", F_B, "        m = super().to_message()\n        m.opt.block1 = self.block1\n        return m\n", "        super().to_message().opt.block1 = self.block1\n        return super().to_message()\n", "the Block1 echo is written into one rendering and another one is returned")
 R.seed("C06.c", "aiocoap/transports/udp6.py", "        return (self.sockaddr, self.pktinfo)\n", "        return (self.sockaddr[0], self.pktinfo)\n", "only the peer's host, not its port, separates transfers")
+
+# fifth pass: repeated options (Uri-Path, Uri-Query, ETag, If-Match ...) keep one key element per instance, in order
+R.seed("C06.c", F_M, "            options.append((option.number, option.value))\n\n        return (self.code, tuple(options))", "            options.append((option.number, option.value))\n\n        return (self.code, tuple(dict(options).items()))", "options de-duplicated by number on the way into the key: ?dev=1&slot=x and ?dev=2&slot=x share a transfer")
+R.seed("C06.c", F_M, "        return (self.code, tuple(options))", "        return (self.code, frozenset(options))", "the key is a set of options: /a/b and /b/a below a path-capable site share a transfer")
+R.seed("C06.c", F_M, "        options = []\n\n        for option in self.opt.option_list():\n            if option.number in ignore_options or (\n                option.number.is_safetoforward() and option.number.is_nocachekey()\n            ):\n                continue\n            options.append((option.number, option.value))\n\n        return (self.code, tuple(options))", "        options = {}\n\n        for option in self.opt.option_list():\n            if option.number in ignore_options or (\n                option.number.is_safetoforward() and option.number.is_nocachekey()\n            ):\n                continue\n            options[option.number] = option.value\n\n        return (self.code, tuple(options.items()))", "the key is built in a dictionary keyed by option number: only the last instance of a repeated option separates transfers")
